@@ -44,6 +44,7 @@ type c08Tab struct {
 }
 
 type c08Fam struct {
+	loader string // index loader of the input tables ("" = default)
 	cmp    string
 	norm   func([]byte) string
 	probes [][]byte
@@ -54,13 +55,17 @@ func c08Family(opts int, legacy bool) c08Fam {
 	switch {
 	case legacy:
 		b := [][]byte{{}, {0, 0, 0, 0}, {0, 0, 0, 3}, {0, 0, 0, 4}, {0, 0, 0, 7}, {0, 0, 0, 8}, {0, 0, 0, 9}, {0, 0, 0, 10}}
-		return c08Fam{"", func(k []byte) string { return string(k) }, b, b}
+		return c08Fam{"", "", func(k []byte) string { return string(k) }, b, b}
+	case opts == 13: // the 3-option family read through the on-disk index
+		f := c08Family(3, false)
+		f.loader = "disk"
+		return f
 	case opts == 5:
-		return c08Fam{"fold", func(k []byte) string { return string(bytes.ToLower(k)) },
+		return c08Fam{"", "fold", func(k []byte) string { return string(bytes.ToLower(k)) },
 			[][]byte{{}, []byte("a"), []byte("A"), []byte("b"), []byte("B"), []byte("c"), []byte("0")},
 			[][]byte{{}, []byte("0"), []byte("a"), []byte("A"), []byte("aa"), []byte("b"), []byte("B"), []byte("c")}}
 	}
-	return c08Fam{"", func(k []byte) string { return string(k) },
+	return c08Fam{"", "", func(k []byte) string { return string(k) },
 		[][]byte{{}, []byte("a"), []byte("b"), []byte("c"), []byte("0")},
 		[][]byte{{}, []byte("0"), []byte("a"), []byte("aa"), []byte("b"), []byte("c")}}
 }
@@ -75,6 +80,9 @@ func loaderFor(cmpName string) string {
 }
 
 func c08NumTables(opts int) int {
+	if opts == 13 {
+		return 27
+	}
 	if opts == 5 {
 		return ipow(5, len(c08FoldKeys))
 	}
@@ -100,6 +108,9 @@ func c08LegacyTable(code, slot int) []kv {
 // table code -> content for a slot. digit per key: 0 absent, 1 value, 2 tombstone, 3 empty value
 func c08Table(code, slot, opts int) []kv {
 	var out []kv
+	if opts == 13 {
+		opts = 3
+	}
 	if opts == 5 {
 		for _, pair := range c08FoldKeys {
 			d := code % 5
@@ -166,6 +177,12 @@ func (c c08) Run(ctx *core.Ctx) error {
 			cases = append(cases, core.J(c08Case{K: k, First: f, Opts: 5}))
 		}
 	}
+	// the input tables read through the on-disk index (its iterators reuse their entry objects)
+	for k := 1; k <= 2; k++ {
+		for f := 0; f < 27; f++ {
+			cases = append(cases, core.J(c08Case{K: k, First: f, Opts: 13}))
+		}
+	}
 	// stacks that contain a table written by an earlier version of the library (the repository's fixtures)
 	nl := 0
 	for fi := range legacyTables() {
@@ -180,7 +197,7 @@ func (c c08) Run(ctx *core.Ctx) error {
 	}
 	ctx.Ev.Bounds["legacy_fixture_tables"] = len(legacyTables())
 	ctx.Ev.Bounds["comparator_families"] = "bytes; ASCII case-insensitive (keys a/A, b/B: equal under the comparator, different as bytes)"
-	ctx.Ev.Rule = "every list of k tables (oldest to newest), each table assigning to each key of {\"\", a, b} one of {absent, value v<slot><key>, tombstone} (second family adds the empty value): stacked reader Get/Contains for 5 keys, Scan, ScanStartingAt and ScanRange for all bounds in {\"\",0,a,aa,b,c}; MergeCompact with both exported reductions into a fresh table and read back; Merge for key-disjoint lists. The same for lists of up to 3 tables under a case-insensitive comparator (per key slot absent / either spelling as value or tombstone), and for stacks of each legacy fixture table of the repository with every current table over keys {below, inside, max, above} (fixture oldest, newest, or between two current tables). distinct = list of table codes; non-trivial = at least two tables share a key"
+	ctx.Ev.Rule = "every list of k tables (oldest to newest), each table assigning to each key of {\"\", a, b} one of {absent, value v<slot><key>, tombstone} (second family adds the empty value): stacked reader Get/Contains for 5 keys, Scan, ScanStartingAt and ScanRange for all bounds in {\"\",0,a,aa,b,c}; MergeCompact with both exported reductions into a fresh table and read back; Merge for key-disjoint lists. The same for lists of up to 2 tables opened with the on-disk index loader, for lists of up to 3 tables under a case-insensitive comparator (per key slot absent / either spelling as value or tombstone), and for stacks of each legacy fixture table of the repository with every current table over keys {below, inside, max, above} (fixture oldest, newest, or between two current tables). distinct = list of table codes; non-trivial = at least two tables share a key"
 	ctx.Ev.Bounds["max_tables_3_options"] = map[bool]int{false: 3, true: 4}[ctx.Tier == "thorough"]
 	ctx.Ev.Bounds["max_tables_4_options"] = k4
 	rs := ctx.Pmap(cases)
@@ -333,7 +350,11 @@ func (c c08) checkTabs(tabs []c08Tab, fam c08Fam, replay json.RawMessage, id str
 	open := func() []sstables.SSTableReaderI {
 		var rs []sstables.SSTableReaderI
 		for _, t := range tabs {
-			rd, err := openTable(t.Dir, tblR{RBuf: 4096, Cmp: fam.cmp, Loader: loaderFor(fam.cmp)})
+			ld := loaderFor(fam.cmp)
+			if fam.loader != "" {
+				ld = fam.loader
+			}
+			rd, err := openTable(t.Dir, tblR{RBuf: 4096, Cmp: fam.cmp, Loader: ld})
 			if err != nil {
 				panic(fmt.Sprintf("cannot open input table: %v", err))
 			}
